@@ -40,6 +40,10 @@ def _entry_wf(where, entry, check_typ_parses=True, source_text=None):
             if k == a:
                 ok = True
         if not ok:
+            from chx.ob import known_active
+
+            if k == "server_default" and known_active("F35"):
+                continue  # known finding F35: the SQLAlchemy column parser leaves the server_default keyword in the entry (pinned by a test)
             return "%s: unexpected key %r" % (where, k)
     if "typ" in entry:
         t = entry["typ"]
@@ -69,7 +73,7 @@ def wf(ir, check_typ_parses=True, source_text=None):
     """the documented shape of an interface description; "" when well formed"""
     if not isinstance(ir, dict):
         return "IR is not a mapping"
-    for k in ("name", "doc", "params", "returns"):
+    for k in ("name", "doc", "params"):  # an absent 'returns' key is read as "no return entry"
         if k not in ir:
             return "IR lacks key %r" % k
     for k in ir:
@@ -105,7 +109,7 @@ def wf(ir, check_typ_parses=True, source_text=None):
         d = _entry_wf("param", entry, check_typ_parses, source_text)
         if d:
             return d
-    r = ir["returns"]
+    r = ir.get("returns")
     if r is not None:
         if not hasattr(r, "items"):
             return "returns is neither None nor a mapping"
